@@ -41,29 +41,51 @@ theorem enumerated_roundtrip (pos n : Nat) (params : Params) (bits : Bits)
     RT bits pos (leafDec .enum params) (.enum n) :=
   RT_enum pos n params bits h hs hlb
 
+/-- fragmented lengths (X.691 11.9.3.8), every length: the OCTET STRING loop of the decoder reads back a general
+    length and its octets as the (repaired, F36) fragmentation loop of the encoder writes them — one or two length
+    octets below 16K; from 16K on fragments `11mmmmmm` of m·16K octets, then the rest, then the final length
+    (0 after an exact multiple of 16K) -/
+theorem fragmented_octets_roundtrip (pos : Nat) (bytes : Bytes) (bits : Bits) (g : Nat)
+    (hg : bytes.length / 16384 + 1 ≤ g)
+    (h : fragLoop 8 (-1) 0 (bytes.length / 16384 + 2) pos bytes.length (bytesToBits bytes) = .ok bits) :
+    RT bits pos (parseOctetStringLoop (-1) 0 g []) bytes := by
+  rw [Proofs.AperSpec.fragLoop_unc 8 (by decide) (bytes.length / 16384 + 1) pos bytes.length (bytesToBits bytes)
+    (by rw [Proofs.Bits.bytesToBits_length]; omega) (Nat.le_refl _)] at h
+  simp only [Except.ok.injEq] at h
+  rw [← h]
+  exact RT_octItems (bytes.length / 16384 + 1) pos bytes [] g (Nat.le_refl _) hg
+
 /-- OCTET STRING of any size constraint (fixed ≤ 2 octets unaligned, fixed > 2 aligned, variable with constrained
-    or unconstrained length, size extension), up to 16 383 octets -/
+    or general length, size extension) and of ANY length (16K octets or more: fragmented). `FragParamsOK`: SIZE(lb..MAX)
+    only with lb = 0 and a constrained size (ub < 64K) ends below 16K, so that a length of 16K or more is always a
+    general length with lower bound 0. -/
 theorem octet_string_roundtrip (pos : Nat) (bytes : Bytes) (params : Params) (bits : Bits)
-    (hok : SizedParamsOK params) (hlen : bytes.length < 16384) (hv : params.valueExt = false)
+    (hok : SizedParamsOK params) (hfrag : FragParamsOK params) (hv : params.valueExt = false)
     (h : appendOctetString pos bytes params.sizeExt params.sizeLB params.sizeUB = .ok bits) :
     RT bits pos (leafDec .octs params) (.octs bytes) :=
-  RT_leaf_octs pos bytes params bits hok hlen hv h
+  RT_leaf_octs_any pos bytes params bits hok hfrag hv h
 
 /-- PrintableString (coded as OCTET STRING by this library) -/
 theorem string_roundtrip (pos : Nat) (bytes : Bytes) (params : Params) (bits : Bits)
-    (hok : SizedParamsOK params) (hlen : bytes.length < 16384) (hv : params.valueExt = false)
+    (hok : SizedParamsOK params) (hfrag : FragParamsOK params) (hv : params.valueExt = false)
     (h : appendOctetString pos bytes params.sizeExt params.sizeLB params.sizeUB = .ok bits) :
     RT bits pos (leafDec .str params) (.str bytes) :=
-  RT_leaf_str pos bytes params bits hok hlen hv h
+  RT_leaf_str_any pos bytes params bits hok hfrag hv h
 
 /-- BIT STRING whose octets are the zero-padded packing of its bits (unused bits clear — what the decoder
-    returns since the F17 repair): every size constraint, any bit length up to 16 383, any alignment -/
+    returns since the F17 repair): every size constraint, ANY bit length (16K bits or more: fragmented), any alignment -/
 theorem bit_string_roundtrip (pos : Nat) (bytes : Bytes) (len : Nat) (params : Params) (bits : Bits)
-    (hok : SizedParamsOK params) (hlen : len < 16384) (hv : params.valueExt = false)
+    (hok : SizedParamsOK params) (hfrag : FragParamsOK params) (hv : params.valueExt = false)
     (hcanon : bitsToBytes ((bytesToBits bytes).take len) = bytes)
     (h : appendBitString pos bytes len params.sizeExt params.sizeLB params.sizeUB = .ok bits) :
     RT bits pos (leafDec .bits params) (.bits bytes len) :=
-  RT_leaf_bits pos bytes len params bits hok hlen hv hcanon h
+  RT_leaf_bits_any pos bytes len params bits hok hfrag hv hcanon h
+
+set_option maxRecDepth 10000000 in
+/-- non-vacuity for a fragmented length: an unconstrained BIT STRING of exactly 16384 bits is encoded (fragment header,
+    2048 octets, final length 0 = 2050 octets), so `bit_string_roundtrip` applies to it -/
+example : (match appendBitString 0 (List.replicate 2048 0xff) 16384 false none none with
+    | .ok b => b.length == 8 + 16384 + 8 | .error _ => false) = true := by decide +kernel
 
 /-- non-vacuity: AMF-UE-NGAP-ID 2^40 − 1 written at bit position 3 satisfies `integer_roundtrip`'s hypotheses -/
 example : (match appendInteger 3 (2 ^ 40 - 1) false (some 0) (some (2 ^ 40 - 1)) with
@@ -90,8 +112,9 @@ example : (match appendInteger 3 (2 ^ 40 - 1) false (some 0) (some (2 ^ 40 - 1))
   `conf env fuel ty params v` (decidable) is what the proof needs of the VALUE beyond "the encoder accepts it":
   * INTEGER within lb..ub, or — for an extensible INTEGER — above ub and below 2^63 (an int64; written as extension
     bit 1 + the unconstrained form, `RT_int_ext`);
-  * OCTET STRING / PrintableString shorter than 16384 octets, BIT STRING shorter than 16384 bits (unfragmented — as the
-    property states) and canonical (⌈n/8⌉ octets, unused bits zero — what the decoder returns since F17);
+  * OCTET STRING / PrintableString / BIT STRING of ANY length (16K items or more are fragmented, X.691 11.9.3.8:
+    `Proofs/AperRTFrag.lean`, encoder after the repair of F36); a BIT STRING canonical (⌈n/8⌉ octets, unused bits zero —
+    what the decoder returns since F17);
   * a CHOICE value is `Present = p`, alternative `p` set, every other alternative a nil pointer (what the decoder leaves), and the
     selected alternative never encodes to zero bits. FINDING: the 27 `choice-Extensions` alternatives of NGAP's CHOICE
     types are generated as EMPTY Go structs (`ProtocolIESingleContainer…ExtIEs struct{}`, ids `exIds Gen.Ngap.schema`);
@@ -99,7 +122,10 @@ example : (match appendInteger 3 (2 ^ 40 - 1) false (some 0) (some (2 ^ 40 - 1))
     ends its container exactly on an octet boundary (model-level observation; no Go input was constructed). No real
     NGAP value uses them (the information
     object sets are empty in TS 38.413), so nothing on the emulator's path is excluded;
-  * the encoding of an open-type value is shorter than 16384 octets (one length determinant; the property's bound).
+  * the content of an open type may have any length (fragmented from 16K octets on).
+  `rtOK` asks in addition (`fragOK`) that a string's SIZE(lb..MAX) has lb = 0 and that a constrained size (ub < 64K) ends
+  below 16K, so that a length of 16K or more is always a general length with lower bound 0 (NGAP: largest constrained
+  string size is 9600; with a constrained length of 16K or more the library's loop would fragment where X.691 does not).
   Measured (one-off, 2 725 `aperrt` values of the quick tier, seed 1): every value the encoder accepts (2 683) satisfies `conf`.
   FINDING (schema, confirmed on the Go code and fixed in /repo 9b665fc): `AssociatedQosFlowItem.QosFlowMappingIndication`
   was `*aper.Enumerated` tagged only `optional` (no bounds): the encoder refused every present value. The tag now is
